@@ -130,10 +130,9 @@ func (g *p2pRig) afterDeliver(c *nodeConn) {
 			g.r.Logf("model: host %s banned until +%v", host, g.w.Cfg.P2P.BanDuration)
 		}
 	}
-	if c.nodeEnd.PendingOut() != 0 {
-		return
-	}
-	if !c.versionDelivered && c.sentVer {
+	// (the admission decision is taken when the version message has arrived, whatever else - a verack on an outbound
+	// connection - is still on its way behind it)
+	if !c.versionDelivered && c.sentVer && c.nodeEnd.Written()-c.nodeEnd.PendingOut() >= c.verEnd {
 		c.versionDelivered = true
 		exp := "admit"
 		live, total := 0, 0
